@@ -642,6 +642,30 @@ fn read_checks<S: Surface<Item = u32>>(s: &S, m: &Model, env: &mut Env) -> Resul
         m.h,
         m.w
     );
+    // the adaptors of std drive the iterator through `nth`: skipping must keep item and position paired
+    if !lin.is_empty() {
+        for step in [2usize, 3] {
+            for (j, (pos, item)) in s.iter().with_position().step_by(step).take(lin.len() + 1).enumerate() {
+                let i = j * step;
+                ensure!(
+                    i < lin.len() && pos == Position::new(i / m.w, i % m.w) && *item == m.cells[lin[i]],
+                    "iter:position-after-skip",
+                    "iter().with_position().step_by({step}) item {j} is {item} at {}, expected element {i} at {}",
+                    pos_str(pos),
+                    pos_str(Position::new(i / m.w.max(1), i % m.w.max(1)))
+                );
+            }
+        }
+        for k in [0usize, 1, lin.len() / 2, lin.len() - 1, lin.len()] {
+            let got = s.iter().with_position().nth(k).map(|(p, v)| (p, *v));
+            let want = (k < lin.len()).then(|| (Position::new(k / m.w, k % m.w), m.cells[lin[k]]));
+            ensure!(
+                got == want,
+                "iter:position-after-skip",
+                "iter().with_position().nth({k}) = {got:?}, expected {want:?}"
+            );
+        }
+    }
     env.ctx.feat_n("iter.items", lin.len() as u64);
     Ok(())
 }
@@ -772,6 +796,27 @@ fn access_ref<S: Surface<Item = u32>>(
                 &got[..got.len().min(16)],
                 &want[..want.len().min(16)]
             );
+            // the owned representation answers for itself (its own `get`/`get_mut`/`set`, not the
+            // forwarding impls of `&S`/`&mut S` the rest of this harness goes through)
+            if !m.is_empty() {
+                let mut own = out.clone();
+                for row in 0..=m.h + 1 {
+                    for col in 0..=m.w + 1 {
+                        let pos = Position::new(row, col);
+                        let want = m.at(row, col).map(|off| m.cells[off]);
+                        let got = own.get(pos).copied();
+                        let got_mut = own.get_mut(pos).map(|v| *v);
+                        ensure!(
+                            got == want && got_mut == want,
+                            "owned:get-outside-or-wrong",
+                            "owned copy of a {}x{} window: get({row},{col}) = {got:?}, get_mut = {got_mut:?}, expected {want:?}",
+                            m.h,
+                            m.w
+                        );
+                    }
+                }
+                env.ctx.feat("owned.get-probed-directly");
+            }
             // it is a copy: none of its cells lives in the parent storage
             let lo = env.base_addr;
             let hi = env.addr(m.cells.len());
@@ -827,6 +872,30 @@ fn access_mut<S: SurfaceMut<Item = u32>>(
                         None => break,
                     }
                 }
+            }
+            if *with_pos && !lin.is_empty() {
+                drop(refs);
+                for step in [2usize, 3] {
+                    for (j, (pos, item)) in s.iter_mut().with_position().step_by(step).take(lin.len() + 1).enumerate() {
+                        let i = j * step;
+                        ensure!(
+                            i < lin.len() && pos == Position::new(i / m.w, i % m.w) && *item == m.cells[lin[i]],
+                            "iter_mut:position-after-skip",
+                            "iter_mut().with_position().step_by({step}) item {j} is {item} at {}, expected element {i}",
+                            pos_str(pos)
+                        );
+                    }
+                }
+                for k in [0usize, 1, lin.len() / 2, lin.len() - 1, lin.len()] {
+                    let got = s.iter_mut().with_position().nth(k).map(|(p, v)| (p, *v));
+                    let want = (k < lin.len()).then(|| (Position::new(k / m.w, k % m.w), m.cells[lin[k]]));
+                    ensure!(
+                        got == want,
+                        "iter_mut:position-after-skip",
+                        "iter_mut().with_position().nth({k}) = {got:?}, expected {want:?}"
+                    );
+                }
+                refs = s.iter_mut().take(lin.len() + 1).collect();
             }
             ensure!(
                 refs.len() == lin.len(),
